@@ -40,3 +40,15 @@ pub fn hash64(s: &str) -> u64 {
     s.hash(&mut h);
     h.finish()
 }
+
+/// Systematic sweep for short deb822 class strings: position by position, every member of that position's class.
+pub fn deb822_sweep(classes: &[String]) -> Vec<String> {
+    let mut rng = StdRng::seed_from_u64(0);
+    let base: Vec<char> = classes.iter().map(|c| class_char(c, 0, &mut rng)).collect();
+    let mut out = vec![];
+    for (i, c) in classes.iter().enumerate() {
+        let pool: &[char] = match c.as_str() { "K" => K_POOL, "S" => S_POOL, "U" => U_POOL, _ => continue };
+        for ch in pool { let mut t = base.clone(); t[i] = *ch; out.push(t.into_iter().collect()); }
+    }
+    out
+}
